@@ -84,3 +84,20 @@ Proof. exact CodeAgreeRto.gen_mgr_new_agrees. Qed.
 Print Assumptions C06_code_is_model.
 Print Assumptions C06_code_safe_preserved.
 Print Assumptions C06_code_new_is_model.
+
+(* ---- "with retransmission timeout RTO ... with the defaults this is 0, 500, 1500, ...": the timeout a request starts with is
+   the CONFIGURED one while no response time has been measured — for a fresh client and again after more than 600 s without a
+   request, whatever was learned before (the configured value is never changed by sends or samples). The implementation side
+   is judged by Monitors.mon_C06_initial on every request of the agent suite (exact equality, and the armed timer as well). *)
+From Rustun Require Import Agent.F32 Agent.RttExact Proofs.RttProofs.
+Theorem C06_fresh_interval_is_configured : forall rto gran now, est_rto_for_send (est0 rto gran) now = rto.
+Proof. exact RttProofs.fresh_interval_is_configured. Qed.
+Theorem C06_stale_interval_is_configured : forall s now l,
+  e_last s = Some l -> (600000000000 <? now - l)%N = true -> est_rto_for_send s now = rc_conf (e_calc s).
+Proof. exact RttProofs.stale_interval_is_configured. Qed.
+Theorem C06_configured_is_kept : forall s now c r,
+  rc_conf (e_calc (est_send s now)) = rc_conf (e_calc s) /\ rc_conf (rtt_update c r) = rc_conf c.
+Proof. intros s now c r. split; [apply RttProofs.configured_is_kept_send | apply RttProofs.configured_is_kept_update]. Qed.
+Print Assumptions C06_fresh_interval_is_configured.
+Print Assumptions C06_stale_interval_is_configured.
+Print Assumptions C06_configured_is_kept.
